@@ -328,6 +328,43 @@ def work_stream(chunk, st):
     st.sample({'two_packet_streams': [list(x) for x in chunk[:2]]}, cap=4)
 
 
+def check_crc_threads(st, tier):
+    """two or three worker threads verifying their first SSH-1 packets at the same time: every interleaving of the source lines of the
+    lazily created checksum object (loops contribute their first two iterations), preemption bound 2"""
+    from mc import linesched
+    datas = [bytes((i * 11 + k) & 0xff for i in range(40 + k)) for k in range(3)]
+    refs = [wire.ssh1_crc(d) for d in datas]
+    for nthreads, bound in ((2, 1), (3, 1)) if tier == 'quick' else ((2, 2), (3, 2)):
+        def make(nthreads=nthreads):
+            runner.reset_state()
+            SSH1._crc32 = None
+            return [(lambda i=i: SSH1.crc32(datas[i])) for i in range(nthreads)]
+
+        def check(results, errors, trace):
+            probs = []
+            for i, (r, e) in enumerate(zip(results, errors)):
+                if e is not None:
+                    probs.append('thread %d raised %r' % (i, e))
+                elif r != refs[i]:
+                    probs.append('thread %d computed a wrong checksum' % i)
+            return probs
+        n = 0
+        for prefix, probs, points, trace in linesched.explore(make, ('ssh1_crc32.py', 'ssh1.py'), bound, check, max_execs=6000, repeat_cap=2):
+            n += 1
+            st.evaluations += 1
+            st.transitions += len(points)
+            st.states.add(hash(('crc-threads', nthreads, tuple(prefix))))
+            st.nontrivial.add(hash(('crc-threads', nthreads, tuple(prefix))))
+            st.outcomes[('crc-threads', nthreads, bool(probs))] += 1
+            for p in probs:
+                st.violation('ssh1-crc:concurrent-first-use:%s' % ('exception' if 'raised' in p else 'wrong-checksum'), {'threads': nthreads, 'schedule': list(prefix), 'what': p})
+        if n >= 6000:
+            st.caps.append('line-level schedule cap 6000 hit for %d CRC threads' % nthreads)
+        st.sample({'crc_threads': nthreads, 'preemption_bound': bound, 'schedules': n}, cap=4)
+    runner.reset_state()
+    SSH1._crc32 = None
+
+
 def check_ssh1(st):
     SSH1._crc32 = None
     for n in range(0, 513):
@@ -650,6 +687,7 @@ def run(tier, seed):
     family(check_scalars, st)
     family(check_messages, st)
     family(check_ssh1, st)
+    family(check_crc_threads, st, tier)
     family(check_op_sequences, st, 4 if tier == 'quick' else 5)
     family(check_packet_streams, st, 2 if tier == 'quick' else 3)
     family(check_audit_traffic, st)
